@@ -146,7 +146,9 @@ class Extraction:
         def entry(ex):
             ex.oracle, ex.loop_cut, ex.atomic_hook = False, False, None
             ex.ops, ex.regs, ex.spawned = [], [], []
+            ex.out['built'] = False
             h = me.build_handle(ex)
+            ex.out['built'] = True
             name_atomics(prog, h)
             if me.init is None:
                 me.init = me.initial_state(ex, h)
@@ -204,6 +206,11 @@ class Extraction:
             if status == 'ok':
                 P.add_path(list(ex.ops), res)
             elif status == 'panic':
+                if not ex.out.get('built'):
+                    # the builder itself panics for some capacity value (e.g. arithmetic on the argument): no sink exists on
+                    # that path, so it is outside the queue properties (C20 owns panics); recorded as a bound
+                    self.bounds_hit = getattr(self, 'bounds_hit', set()) | {'capacity values for which build() panics are excluded: %s' % (str(res)[:160],)}
+                    return
                 P.add_path(list(ex.ops), ('panic', None))
             elif status == 'cut':
                 if 'try_iter batch' in str(res):
